@@ -376,6 +376,22 @@ func pHdrBin(a []string) string {
 	if s != h.Size {
 		return "FAIL uint24"
 	}
+	// the other binary encoder of the package: EntryHeaders.Write / Table.Write "write the headers in a
+	// binary format to b".  Where they report success, what they put into b must decode to the headers.
+	wb := bytes.Repeat([]byte{0xEE}, 16)
+	if n, err := h.Write(wb); err == nil && n == 16 {
+		if g, err := fit.ParseEntryHeadersFrom(bytes.NewReader(wb)); err != nil || *g != h {
+			return "FAIL hdr-write-into-slice: EntryHeaders.Write(b) reported 16 bytes written, b does not hold the headers"
+		}
+	}
+	h2 := h
+	h2.Address ^= 0xFFFF
+	tb := bytes.Repeat([]byte{0xEE}, 32)
+	if n, err := (fit.Table{h, h2}).Write(tb); err == nil && n == 32 {
+		if g, err := fit.ParseTable(tb); err != nil || len(g) != 2 || g[0] != h || g[1] != h2 {
+			return "FAIL hdr-write-into-slice: Table.Write(b) reported 32 bytes written, b does not hold the table"
+		}
+	}
 	return "ok"
 }
 
@@ -401,6 +417,10 @@ func pHdrJSON(a []string) string {
 	var t fit.Table
 	if err := json.Unmarshal(tb, &t); err != nil || len(t) != 2 || t[0] != h || t[1] != h {
 		return "FAIL json-table-roundtrip"
+	}
+	// the field types' own JSON codecs
+	if s := jsonParts(&h); s != "" {
+		return s
 	}
 	return "ok"
 }
@@ -457,7 +477,10 @@ func pBig(a []string) string {
 	if k == 9 || k == 11 || k == 12 {
 		dataLen = units
 	}
-	if units >= 1<<24 || size < dataLen+0x1000 || size > 64<<20 {
+	if k == 2 {
+		dataLen = units * 4 // the ACM's own size field, in units of 4 bytes
+	}
+	if units >= 1<<24 || size < dataLen+0x1000 || size > 64<<20 || (k == 2 && dataLen < 28) {
 		return "skip"
 	}
 	img := r.Bytes(int(size))
@@ -478,6 +501,9 @@ func pBig(a []string) string {
 	}
 	bb.Headers.Address.SetOffset(dataOff, size)
 	bb.DataSegmentBytes = r.Bytes(int(dataLen))
+	if k == 2 {
+		binary.LittleEndian.PutUint32(bb.DataSegmentBytes[24:28], uint32(units)|uint32(mode/3%4)<<30)
+	}
 	small := newOfKind(127)
 	small.GetEntryBase().Headers = randHdr(r)
 	es := fit.Entries{newOfKind(0), big, small}
@@ -485,26 +511,47 @@ func pBig(a []string) string {
 }
 
 func roundTrip(orig []byte, off uint64, es fit.Entries) string {
+	return roundTripOpt(orig, off, es, rtOpts{recalc: true})
+}
+
+// rtOpts: recalc = call RecalculateHeaders first (the entries then have to satisfy shape_ok), otherwise the
+// entries are injected as they are and have to satisfy entry_ok / first_ok (theorem C14_inject_read);
+// files = also run the file-based entry points (InjectTo / GetTableFrom / GetEntriesFrom /
+// WriteToFirmwareImage on an *os.File, what cmds/fittool does) and the JSON form of the entries.
+type rtOpts struct{ recalc, files bool }
+
+func roundTripOpt(orig []byte, off uint64, es fit.Entries, opt rtOpts) string {
 	if len(es) == 0 || kindOf(es[0]) != 0 || len(es) >= 1<<24 {
 		return "skip"
 	}
-	kinds := ""
+	var kb strings.Builder
 	for _, e := range es {
 		b := e.GetEntryBase()
-		if !shapeOK(kindOf(e), &b.Headers, b.DataSegmentBytes) {
+		if opt.recalc && !shapeOK(kindOf(e), &b.Headers, b.DataSegmentBytes) {
 			return "skip"
 		}
-		kinds += fmt.Sprintf(" k%d", kindOf(e))
+		if !opt.recalc && !entryOK(kindOf(e), &b.Headers, b.DataSegmentBytes) {
+			return "skip"
+		}
+		if len(es) < 64 {
+			fmt.Fprintf(&kb, " k%d", kindOf(e))
+		}
+	}
+	kinds := kb.String()
+	if !opt.recalc && !firstOK(es) {
+		return "skip"
 	}
 	var rerr error
-	func() {
-		defer func() {
-			if r := recover(); r != nil {
-				rerr = fmt.Errorf("panic: %v", r)
-			}
+	if opt.recalc {
+		func() {
+			defer func() {
+				if r := recover(); r != nil {
+					rerr = fmt.Errorf("panic: %v", r)
+				}
+			}()
+			rerr = es.RecalculateHeaders()
 		}()
-		rerr = es.RecalculateHeaders()
-	}()
+	}
 	if rerr != nil {
 		if strings.Contains(rerr.Error(), "EntryUnknown is not known") {
 			return "FAIL recalc-panics-on-unknown-entry"
@@ -535,7 +582,7 @@ func roundTrip(orig []byte, off uint64, es fit.Entries) string {
 			}
 		}
 	}
-	want := entriesArgs(es) // headers after recalculation, data, kinds
+	want := []string{lenientArgs(es)} // headers after recalculation, data, kinds
 	img := append([]byte{}, orig...)
 	if err := es.Inject(img, off); err != nil {
 		return "FAIL inject " + err.Error()
@@ -592,12 +639,25 @@ func roundTrip(orig []byte, off uint64, es fit.Entries) string {
 		if !bytes.Equal(got[i].GetEntryBase().DataSegmentBytes, es[i].GetEntryBase().DataSegmentBytes) {
 			return "FAIL data-differs " + N(uint64(i)) + kinds
 		}
-		if len(got[i].GetEntryBase().HeadersErrors) != 0 {
+		if len(got[i].GetEntryBase().HeadersErrors) != 0 && !unsupportedKind(kindOf(es[i])) {
 			return "FAIL headers-errors " + N(uint64(i))
 		}
 	}
-	if strings.Join(entriesArgs(got), " ") != strings.Join(want, " ") {
+	wantS := strings.Join(want, " ")
+	if lenientArgs(got) != wantS {
 		return "FAIL entries-differ"
+	}
+	// the other ways of reading the same image
+	if s := otherReaders(img, tb, got, wantS); s != "" {
+		return s
+	}
+	if opt.files {
+		if s := entriesJSON(got, es); s != "" {
+			return s
+		}
+		if s := fileChecks(orig, img, off, es, ranges, wantS); s != "" {
+			return s
+		}
 	}
 	return "ok"
 }
@@ -662,7 +722,50 @@ func pReinject(a []string) string {
 	if strings.Join(entriesArgs(got), " ") != want {
 		return "FAIL entries-differ"
 	}
+	// what was read, injected again where it was found (the entries' data are slices of this very
+	// image): the pointer, the table and the data are written with the bytes they already hold
+	if s, _, err := fit.GetHeadersTableRangeFrom(bytes.NewReader(src)); err == nil && layoutFree(src, s, es) {
+		same := append([]byte{}, src...)
+		es2, err := fit.GetEntries(same)
+		if err != nil {
+			return "FAIL getentries-again " + err.Error()
+		}
+		if err := es2.Inject(same, s); err != nil {
+			return "FAIL inject-in-place " + err.Error()
+		}
+		if !bytes.Equal(same, src) {
+			return "FAIL inject-in-place-changed " + firstDiff(same, src)
+		}
+	}
 	return "ok"
+}
+
+// layout hypothesis for entries read from img with the table at off
+func layoutFree(img []byte, off uint64, es fit.Entries) bool {
+	size := uint64(len(img))
+	if size < fitconsts.FITPointerOffset {
+		return false
+	}
+	ranges := []rng{{size - fitconsts.FITPointerOffset, size - fitconsts.FITPointerOffset + 8}, {off, off + 16*uint64(len(es))}}
+	for _, e := range es {
+		b := e.GetEntryBase()
+		if len(b.DataSegmentBytes) == 0 {
+			continue
+		}
+		o := b.Headers.Address.Offset(size)
+		ranges = append(ranges, rng{o, o + uint64(len(b.DataSegmentBytes))})
+	}
+	for i, r := range ranges {
+		if r.hi < r.lo || r.hi > size {
+			return false
+		}
+		for _, q := range ranges[:i] {
+			if overlap(r, q) {
+				return false
+			}
+		}
+	}
+	return true
 }
 
 // ---- generators ----
@@ -725,7 +828,7 @@ func dataFor(r *Rng, k int, n int) []byte {
 			n = 28
 		}
 		d := r.Bytes(n)
-		binary.LittleEndian.PutUint32(d[24:28], uint32(n/4))
+		binary.LittleEndian.PutUint32(d[24:28], uint32(n/4)|uint32(r.Pick(0, 0, 0, 1, 2, 3))<<30)
 		return d
 	}
 	return r.Bytes(n &^ 15)
@@ -748,6 +851,12 @@ func layout(r *Rng, withUnsupported bool) plan {
 	for size < 0x40+16*n+8 {
 		size *= 2
 	}
+	return layoutSized(r, withUnsupported, n, size)
+}
+
+// layoutSized: the same for a given entry count and image size (the caller makes sure that the table
+// fits somewhere: 16*n <= size-0x40 or 16*n <= 0x38)
+func layoutSized(r *Rng, withUnsupported bool, n, size int) plan {
 	img := filler(r, size)
 	// free list: everything except the pointer's 8 bytes
 	type span struct{ lo, hi int }
@@ -772,10 +881,14 @@ func layout(r *Rng, withUnsupported bool) plan {
 		return 0, false
 	}
 	off, ok := take(16*n, 1)
-	if !ok {
+	if !ok && 16*n <= size-0x40 {
 		// the table at the very start, the rest stays free
 		off = 0
 		free = []span{{16 * n, size - 0x40}, {size - 0x38, size}}
+	} else if !ok {
+		// the table directly behind the FIT pointer
+		off = size - 0x38
+		free = []span{{0, size - 0x40}, {off + 16*n, size}}
 	}
 	var es fit.Entries
 	for i := 0; i < n; i++ {
@@ -796,7 +909,7 @@ func layout(r *Rng, withUnsupported bool) plan {
 			t := r.Pick(4, 5, 6, 0x0D, 0x11, 0x2E, 0x30, 0x7E)
 			b.Headers.TypeAndIsChecksumValid = fit.TypeAndIsChecksumValid(t | r.Pick(0, 0x80))
 		}
-		d := dataFor(r, k, r.Pick(0, 0, 16, 32, 48, 28, 33, 64, 100))
+		d := dataFor(r, k, r.Pick(0, 0, 16, 32, 48, 28, 33, 64, 100, 1, 15, 17, 255, 256, 257, 272))
 		if len(d) > 0 {
 			if o, ok := take(len(d), 1); ok {
 				b.Headers.Address.SetOffset(uint64(o), uint64(size))
@@ -888,17 +1001,34 @@ func gen(r *Rng, tier string, emit Emit) {
 		{2 << 20, 11, 0x10001, 0},
 		{2 << 20, 12, 0xFFFFF, 2},
 		{17 << 20, 16, 0xFFFFF, 0},
+		// every kind with its own size rule at the 16-bit boundary of its size field
+		{2 << 20, 9, 0x10000, 1},
+		{2 << 20, 9, 0xFFFF, 2},
+		{2 << 20, 11, 0xFFFF, 1},
+		{2 << 20, 12, 0x10000, 0},
+		{2 << 20, 45, 0xFFFF, 2},
+		{2 << 20, 47, 0x10001, 0},
+		{2 << 20, 2, 0x10000, 1},    // ACM of 256 KiB: size field 0x10000
+		{2 << 20, 2, 0xFFFF, 2 + 3}, // ... with an alias bit above the 30 that count
+		{2 << 20, 2, 0x4001, 0 + 6}, // 64 KiB + 4
 	}
 	if tier == "thorough" {
 		for i := 0; i < 40; i++ {
 			k := []int{1, 7, 16, 45, 47, 127, kUnknown, 9, 11, 12}[rb.Intn(10)]
+			if i%8 == 7 {
+				k = 2
+			}
 			units := uint64(rb.Pick(0x10000, 0x10001, 0xFFFF, 0x1FFFF, 0x20000, 0x30001, 0x10000+rb.Intn(0x30000)))
 			n := units * 16
 			if k == 9 || k == 11 || k == 12 {
 				units = uint64(rb.Pick(0xFFFF, 0x10000, 0x10001, 0xFFFFFF, 0x100000+rb.Intn(0x300000)))
 				n = units
 			}
-			bigCases = append(bigCases, [4]uint64{n + 0x1000 + uint64(rb.Intn(1<<20)), uint64(k), units, uint64(rb.Intn(3))})
+			if k == 2 {
+				units = uint64(rb.Pick(0x3FFF, 0x4000, 0xFFFF, 0x10000, 0x10001, 0x40000, 0x4000+rb.Intn(0x100000)))
+				n = units * 4
+			}
+			bigCases = append(bigCases, [4]uint64{n + 0x1000 + uint64(rb.Intn(1<<20)), uint64(k), units, uint64(rb.Intn(3) + 3*(i%4))})
 		}
 	}
 	for _, c := range bigCases {
@@ -910,6 +1040,7 @@ func gen(r *Rng, tier string, emit Emit) {
 		p := layout(rr, false)
 		emit("C", "recalc", entriesArgs(p.es)...)
 		emit("P", "p_roundtrip", injectArgs(p.img, p.off, p.es)...)
+		emit("P", "p_file", injectArgs(p.img, p.off, p.es)...)
 		// the same through the model: recalculated entries, inject, read back
 		es := copyEntries(p.es)
 		recalcOK := func() (ok bool) {
@@ -1029,6 +1160,7 @@ func gen(r *Rng, tier string, emit Emit) {
 			emit("C", "recalc", entriesArgs(q.es[1:])...)
 		}
 	}
+	genAudit(r, tier, n, emit)
 }
 
 func main() {
@@ -1049,11 +1181,16 @@ func main() {
 	Register("getentries", opGetEntries)
 	Register("inject", opInject)
 	Register("recalc", opRecalc)
+	Register("wtable", opWTable)
 	Register("p_addr", pAddr)
 	Register("p_hdr_bin", pHdrBin)
 	Register("p_hdr_json", pHdrJSON)
 	Register("p_roundtrip", pRoundTrip)
 	Register("p_reinject", pReinject)
 	Register("p_big", pBig)
+	Register("p_file", pFile)
+	Register("p_inject_raw", pInjectRaw)
+	Register("p_many", pMany)
+	Register("p_fittool", pFittool)
 	Main(gen)
 }
